@@ -109,7 +109,7 @@ class InteractiveParser:
         # and are unnecessarily slow.
         conf_no_callbacks.callbacks = {}
         for t in self.choices():
-            if t.isupper(): # is terminal?
+            if t not in conf_no_callbacks.nonterminals: # is terminal?
                 new_cursor = self.copy(deepcopy_values=False)
                 new_cursor.parser_state.parse_conf = conf_no_callbacks
                 try:
